@@ -544,6 +544,10 @@ async fn run(plan: Plan, root: &std::path::Path, trace: bool) -> Value {
     for f in plan.faults.iter() {
         fault_tasks.push(tokio::task::spawn_local(exec_fault(world.clone(), f.clone())));
     }
+    let watch_logs: crate::watchers::WatchLogs = Rc::new(RefCell::new(Vec::new()));
+    for (i, wp) in plan.watchers.iter().enumerate() {
+        tokio::task::spawn_local(crate::watchers::run_watcher(world.clone(), watch_logs.clone(), i, wp.clone()));
+    }
     let mut client_tasks = Vec::new();
     for c in plan.clients.iter() {
         client_tasks.push(tokio::task::spawn_local(run_client(world.clone(), hist.clone(), c.clone(), plan.horizon_ms)));
@@ -590,6 +594,7 @@ async fn run(plan: Plan, root: &std::path::Path, trace: bool) -> Value {
     let mut prefix_ok = HashMap::new();
     crate::checks::structural_checks(&world, &mut prefix_ok);
     let fin = crate::checks::final_checks(&world, &hist);
+    crate::watchers::check_watchers(&world, &watch_logs);
 
     // ── result ──
     let w = world.borrow();
@@ -660,6 +665,7 @@ async fn run(plan: Plan, root: &std::path::Path, trace: bool) -> Value {
     if trace {
         res["trace_log"] = json!(o.trace_log.clone().unwrap_or_default());
         res["history"] = json!(h.ops);
+        res["watchers"] = json!(*watch_logs.borrow());
     }
     if !o.violations.is_empty() {
         res["plan"] = serde_json::to_value(&plan).unwrap();
